@@ -177,8 +177,8 @@ type side struct {
 	gates     *gates
 	failWrite map[int]bool // ordinals of Writer.Write calls that fail
 	nWrites   int32
-	wg        tracker        // goroutines started on behalf of the scenario (awaits, async responders, closers)
-	closeRet  chan struct{}  // closed when some Close/Wait returned
+	wg        tracker       // goroutines started on behalf of the scenario (awaits, async responders, closers)
+	closeRet  chan struct{} // closed when some Close/Wait returned
 	closeOnce sync.Once
 	awaits    int32
 	pending   int32 // calls whose Await has not returned yet
@@ -605,8 +605,12 @@ func (s *side) asyncRespond(id jsonrpc2.ID, gate string, tag int, returned chan 
 // which would read the whole side struct by reflection while other goroutines update it.
 type hnd struct{ s *side }
 
-func (h hnd) Preempt(ctx context.Context, req *jsonrpc2.Request) (any, error) { return h.s.preempt(ctx, req) }
-func (h hnd) Handle(ctx context.Context, req *jsonrpc2.Request) (any, error)  { return h.s.handle(ctx, req) }
+func (h hnd) Preempt(ctx context.Context, req *jsonrpc2.Request) (any, error) {
+	return h.s.preempt(ctx, req)
+}
+func (h hnd) Handle(ctx context.Context, req *jsonrpc2.Request) (any, error) {
+	return h.s.handle(ctx, req)
+}
 
 func (s *side) preempt(ctx context.Context, req *jsonrpc2.Request) (res any, err error) {
 	h := s.reqHandle(req)
